@@ -20,4 +20,4 @@ for id in "$@"; do
 done
 git -C /repo worktree remove --force "$wt"
 tag=$(python3 -c "import hashlib,sys;print(hashlib.sha256(sys.argv[1].encode()).hexdigest()[:10])" "$wt")
-rm -rf "/verif/build/gen$tag" "/verif/build/coq_$tag" "/verif/build/harness_$tag" /verif/build/ocaml_*"$tag" /verif/build/bin/*"$tag"*
+rm -rf "/verif/build/evidence_$tag" "/verif/build/gen$tag" "/verif/build/coq_$tag" "/verif/build/harness_$tag" /verif/build/ocaml_*"$tag" /verif/build/bin/*"$tag"*
